@@ -15,6 +15,9 @@ def run(ctx, prefixes):
     ok, _, _, _ = ctx.mc("H2Relay.tla", "MC_H2Relay_DropOnClose.cfg", expect_ok=False)
     if ok:
         raise vlib.Infra("H2Relay mutant DropOnClose not detected by the model")
+    ok, _, _, _ = ctx.mc("H2Relay.tla", "MC_H2Relay_WriteErrorEndsReader.cfg", expect_ok=False)
+    if ok:
+        raise vlib.Infra("H2Relay mutant WriteErrorEndsReader not detected by the model")
     ok, _, _, _ = ctx.mc("H2Relay.tla", "MC_H2Relay_ForwardInitWin.cfg", expect_ok=False)
     if ok:
         raise vlib.Infra("H2Relay mutant ForwardInitWin not detected by the model")
@@ -67,6 +70,10 @@ def run(ctx, prefixes):
                act("ctl", 0, t="WU", v=65535), act("ctl", 1, t="WU", v=65535)]},
         {"h": [act("headers", 1), act("headers", 3), act("data", 3, 40000), act("data", 1, 40000), act("headers", 1, es=True), act("close"),
                act("ctl", 1, t="WU", v=65535), act("ctl", 0, t="WU", v=65535), act("ctl", 3, t="WU", v=65535)]},
+        # the same with a sender that closes its connection altogether and a receiver that sends PINGs before it opens its
+        # windows (MC_H2Relay_WriteErrorEndsReader)
+        {"h": [act("headers", 1), act("data", 1, 40000), act("data", 1, 40000, es=True), act("close_full"), act("bping"),
+               act("ctl", 0, t="WU", v=65535), act("ctl", 1, t="WU", v=65535)]},
     ]
     trace = os.path.join(ctx.work, "h2.ndjson")
     out = ctx.run_vh(binp, ["h2", "--arg", "trace=" + trace], cases=cases, timeout=3000)
